@@ -138,6 +138,15 @@ func c09Run(r *vt.Run, c c09Case) (canon string) {
 			inTickOf = host
 			h.Tick(a)
 			inTickOf = ""
+			// light maintenance pauses no instance: nobody sits in the maintenance state (and out of the
+			// manager election) while the key says light mode before and after its iteration
+			if after := maint(); a.state == stateMaintenance && m != nil && m.IsLightMode() && !m.ShouldLeave && after != nil && after.IsLightMode() && !after.ShouldLeave && !w.ZK.Down && !zkWasDown {
+				how := "/entered-under-a-light-key"
+				if wasMaint {
+					how = "/still-paused-by-an-earlier-full-maintenance"
+				}
+				violate("2-light-maintenance-pauses-no-instance"+how, fmt.Sprintf("%s is in the maintenance state (not contending for the manager lock, repairing nothing) under light maintenance", host))
+			}
 			if wasMaint && leaving && a.dcs.IsConnected() && !w.ZK.Down && !zkWasDown && len(tickMastersAtStart) > 1 && !emergeBefore && a.state == stateMaintenance {
 				// a leave attempt by the lock holder with several masters must raise the emergency marker
 				if dcsLockOwner(h) == h.ID(a) && !w.VFSHas("/vfs/"+host+"/emerge") {
